@@ -618,7 +618,7 @@ impl Property for C02 {
             // long series of conflicts in one solve (counters, stamps and periodic actions keyed on the number of
             // conflicts): forests of 900..1300 conflict gadgets, several hundred learnt clauses per solve (a solve takes seconds: every lazily discovered conflict restarts the search), on one seed in 80000
             let mut gr = Rng::stream(seed, "many-conflicts");
-            if gr.chance(1, 80_000) {
+            if gr.chance(1, 80_000) || std::env::var("VERIF_FORCE_MANY_CONFLICTS").is_ok() {
                 let k = gr.range(900, 1300);
                 let (w, p) = crate::gen::gen_forest(&mut gr, &params, k, true, true);
                 sc.world = w;
